@@ -31,13 +31,13 @@ def run(ck):
             raise core.Broken("negative control %s was accepted: the model cannot see a wrong restore" % neg)
     # model scripts + random + memory systems on the real code
     lost, ok = tickcheck.model_behaviours(ck, ["TickImpl_q2.cfg", "TickImpl_q4.cfg"] if q else ["TickImpl_t2.cfg", "TickImpl_t4.cfg", "TickImpl_q1.cfg"],
-                                          workers=8 if q else 16, cap=6 if q else 800)
+                                          workers=8 if q else 16, cap=6 if q else 80)
     systems = [tickcheck.system_from_behaviour(b) for b in lost + ok]
     binary = ck.binary("tick")
     d = core.scratch("c06-")
     path = os.path.join(d, "spliced.ndjson")
-    out = core.harness(binary, "ckpt_cuts", dict(seed=ck.seed, systems=systems, random=5 if q else 400, mem=4 if q else 300, collide=6 if q else 200,
-                                                 max_cuts=4 if q else 0, trace_out=path), timeout=3000)
+    out = core.harness(binary, "ckpt_cuts", dict(seed=ck.seed, systems=systems, random=5 if q else 40, mem=4 if q else 30, collide=6 if q else 25,
+                                                 max_cuts=4 if q else 10, trace_out=path), timeout=3000)
     ck.cov["traces_validated_against_impl"] += out["cuts"]
     ck.cov["evaluations"] += out["events"]
     ck.cov["distinct_nontrivial"] += out["cuts"]
